@@ -44,6 +44,38 @@ def run(tier, rep):
             os.makedirs(dd)
             open(os.path.join(dd, fname), 'w').write(t)
             items.append((kind, md, 'gA-' + kind, tag))
+        # degenerate energy grids: header fields replaced together (single-token replacement cannot produce them): a range
+        # too narrow for the number of samples in double precision, denormal and huge ranges - with a maximum energy sum
+        # that admits them
+        lines_ = text.split('\n')
+        hi = [k for k, l in enumerate(lines_) if len(l.split()) == 5 and 'robab' in l.split()[0]]
+        qi = [k for k, l in enumerate(lines_) if len(l.split()) == 1 and not l.startswith('#')]
+        if hi and qi:
+            word, _, _, stp, ns = lines_[hi[0]].split()
+            for gi, (emn, emx, nn) in enumerate([('1e16', '10000000000000002', ns), ('1', '1.0000000000000002', ns), ('0', '5e-324', ns), ('0', '1e308', ns), ('1e308', '1.7e308', ns),
+                                                 ('1e16', '10000000000000002', '3'), ('0.1', '0.10000000000000002', ns)]):
+                t2 = list(lines_)
+                t2[hi[0]] = ' '.join([word, emn, emx, stp, nn])
+                t2[qi[0]] = '1e309' if gi == 4 else '3e308'
+                for qv in ('3e308', '1e17'):
+                    t3 = list(t2)
+                    t3[qi[0]] = qv
+                    md = os.path.join(work, 'g%d' % n); n += 1
+                    dd = os.path.join(md, 'data/dbd_gA/v1.0/Test/g0')
+                    os.makedirs(dd)
+                    open(os.path.join(dd, fname), 'w').write('\n'.join(t3))
+                    items.append((kind, md, 'gA-' + kind, 'grid%d(%s,%s,%s;sum %s)' % (gi, emn, emx, nn, qv)))
+    # a second p.d.f. seed whose maximum energy sum lies inside the stored grid: the cells above it hold zeros, so that every
+    # single-token replacement also visits the region with its own rule (must be zero there)
+    # (written by hand in the format of the first seed: the documented encoder cannot write a table with an empty row)
+    text2 = ('#isotope=Test\n#dbd_ga.mode=g0\n0.9000\nProbability 1.0000000000000001e-01 1.1000000000000001e+00 5.0000000000000000e-01 3\n'
+             '1.0000000e+00 2.5000000e+00 0.0000000e+00 \n2.0000000e+00 0.0000000e+00 \n0.0000000e+00')
+    for tag, t in mutate.mutants(text2, pairs=False, max_prefix=0):
+        md = os.path.join(work, 'g%d' % n); n += 1
+        dd = os.path.join(md, 'data/dbd_gA/v1.0/Test/g0')
+        os.makedirs(dd)
+        open(os.path.join(dd, 'tab_pdf.data'), 'w').write(t)
+        items.append(('pdf', md, 'gA-pdf', 'seed2:' + tag))
     # ---- seeds: catalogue lists (cut to a few lines)
     desc = os.path.join(vlib.REPO, 'resources/description')
     lis = {}
